@@ -24,6 +24,8 @@ NARROW_AFTER_CHECK = {
 
 
 def run(ctx):
+    shared.borrow(ctx, 'C11', '3x2 ', '10x2 later-writes-of-the-root-wait-for-its-pending-removal')   # F49 also breaks the slot accounting / the content of the re-inserted tree
+    shared.walk_frees_children_of_the_root_found(ctx, '10w')   # F69
     F = ctx.F
     # nodes of a committed tree stay readable through the overlays: an entry leaves only with the id that owns it
     shared.owner_id_removal(ctx, '6')
